@@ -12,4 +12,7 @@ def build(bin_step, py_step, miri_step, fuzz_step):
     S["C09"] = [bin_step("c09"), bin_step("c09", release=True, tiers=("thorough",))]
     S["C12"] = [bin_step("c12"), bin_step("c12", release=True, tiers=("thorough",))]
     S["C16"] = [bin_step("c16"), bin_step("c16", release=True, tiers=("thorough",))]
+    S["C06"] = [bin_step("c06"), bin_step("c06", release=True, tiers=("thorough",))]
+    S["C13"] = [bin_step("c13"), bin_step("c13", release=True, tiers=("thorough",))]
+    S["C14"] = [bin_step("c13", prop="C14"), bin_step("c13", release=True, tiers=("thorough",), prop="C14")]
     return S
